@@ -353,7 +353,8 @@ def run_property(prop, tier, seed, only=None, dump=None):
     slow = sorted(considered, key=lambda so: -so[1].seconds)[:3]
     samples = [{'unit': s, **o.as_dict()} for s, o in (considered[:3] + slow)]
     trusted_base = sorted('library model: ' + x for x in lib_used) + \
-        sorted('assumed contract (trusted unit): ' + t.short for t in trusted_units if prop in t.props)
+        sorted('assumed contract (trusted unit): ' + t.short for t in trusted_units if prop in t.props) + \
+        sorted({'assumed (abstract) contract of an out-of-reach callee: %s, used by %s' % (k, u.short) for u in units for k in (u.abstract or {})})
     ev = {
         'property_id': prop, 'tier': tier, 'seed': int(seed), 'level': 'proof',
         'coverage': {
